@@ -8,11 +8,12 @@
      env       = filename -> first_lineno -> source      what os.path.exists + linecache +
                  inspect.getblock deliver: `Found sublines` (file on disk), `Missing`, or
                  `Cell sublines` (an IPython cell: no file, the source lives only in
-                 linecache.cache - and is lost once show_func has called linecache.clearcache()
-                 for a function whose file is on disk; that state is the `cleared` flag)
+                 linecache.cache; show_func refreshes only the reported file's entry with
+                 linecache.checkcache(filename) - since /repo 6c987c9 - so the lookup of one
+                 function does not depend on which functions were reported before it)
      formatter = the four number-to-text conversions (instantiated in Cells.v by
                  `py_formatter unit output_unit`; every structural theorem holds for any formatter)
-     show_func F env strip cleared key timings : option block
+     show_func F env strip key timings : option block
      show_text F env opts stats        : report
      render_report : report -> list string      the text, split at "\n" (every line is
                                                  "\n"-terminated in the real output)          *)
@@ -29,7 +30,7 @@ Definition stats := list entry.
 Record options := mkOpts { o_stripzeros : bool; o_sort : bool; o_summarize : bool; o_details : bool }.
 
 Inductive source :=
-| Found (sublines : list string)    (* os.path.exists: linecache.clearcache(), then the file is read *)
+| Found (sublines : list string)    (* os.path.exists: linecache.checkcache(filename), then the file is read *)
 | Missing                           (* no file, not an IPython cell name *)
 | Cell (sublines : list string).    (* is_ipython_kernel_cell(filename), source only in linecache.cache *)
 Definition env := string -> Z -> source.
@@ -118,10 +119,10 @@ Definition c_perhit (c : cells) : string := snd (fst c).
 Definition c_percent (c : cells) : string := snd c.
 
 (* the source block: sublines *)
-Definition block_lines (src : source) (cleared : bool) (start : Z) (tm : list timing) : list string :=
+Definition block_lines (src : source) (start : Z) (tm : list timing) : list string :=
   match src with
   | Found sub => sub
-  | Cell sub => if cleared then [] else sub      (* inspect.getblock([]) = [] *)
+  | Cell sub => sub
   | Missing =>
       let linenos := map t_line tm in
       let nlines := match linenos with
@@ -137,14 +138,14 @@ Definition mk_row (d : dict) (lineno : Z) (line : string) : row :=
         (match dget d lineno with Some c => c | None => empty_cells end)
         (rstrip_char cr (rstrip_char nl line)).
 
-Definition show_func (F : formatter) (E : env) (strip : bool) (cleared : bool) (k : key) (tm : list timing)
+Definition show_func (F : formatter) (E : env) (strip : bool) (k : key) (tm : list timing)
   : option block :=
   let '(fn, start, name) := k in
   let th := total_hits tm in
   let tt := total_time tm in
   if strip && (th =? 0) then None else
   let src := E fn start in
-  let sub := block_lines src cleared start tm in
+  let sub := block_lines src start tm in
   let d := build_display F tt tm in
   let wh := zmax_list 9 (map (fun kv => slen (c_hits (snd kv))) d) in
   let wt := zmax_list 12 (map (fun kv => slen (c_time (snd kv))) d) in
@@ -152,22 +153,6 @@ Definition show_func (F : formatter) (E : env) (strip : bool) (cleared : bool) (
   let rows := map (fun p => mk_row d (fst p) (snd p)) (combine (zrange start (length sub)) sub) in
   Some (mkBlock k (f_total F tt) (match src with Missing => false | _ => true end)
                 wh wt wp rows).
-
-(* show_func calls linecache.clearcache() exactly when the file exists on disk *)
-Definition clears (E : env) (k : key) : bool :=
-  match E (fst (fst k)) (snd (fst k)) with Found _ => true | _ => false end.
-
-(* the details loop, threading the state of linecache *)
-Fixpoint show_blocks (F : formatter) (E : env) (strip : bool) (cleared : bool) (l : list entry)
-  : list block :=
-  match l with
-  | [] => []
-  | e :: t =>
-      match show_func F E strip cleared (fst e) (snd e) with
-      | None => show_blocks F E strip cleared t
-      | Some b => b :: show_blocks F E strip (cleared || clears E (fst e)) t
-      end
-  end.
 
 Record report := mkReport {
   rp_unit : string;
@@ -190,7 +175,9 @@ Definition summary_of (F : formatter) (strip : bool) (e : entry) : option (key *
 Definition show_text (F : formatter) (E : env) (o : options) (st : stats) : report :=
   let order := stats_order (o_sort o) st in
   mkReport (f_unit_text F)
-           (if o_details o then show_blocks F E (o_stripzeros o) false order else [])
+           (if o_details o
+            then filter_map (fun e => show_func F E (o_stripzeros o) (fst e) (snd e)) order
+            else [])
            (if o_summarize o then filter_map (summary_of F (o_stripzeros o)) order else []).
 
 (* ---- rendering -------------------------------------------------------------------- *)
